@@ -673,6 +673,52 @@ def _thread_boolean_result(blk):
     blk.body = _truncate_dead(blk.body)
 
 
+def _thread_guarded_result(blk, following=None):
+    """An inlined helper that hands back an early result under the very test its caller applies to the result,
+
+        <helper>  v = f(); if T(v): <ret> = v; jump          v = f()
+                  <ret> = g(); jump                    ->    if T(v): x = v; B
+        <caller>  x = <ret>                                  <ret> = g(); jump
+                  if T(x): B        (B leaves)               x = <ret>; if T(x): B
+
+    (T a comparison of the value with constants / constant paths): on the early path the caller's test is the one just taken, so its branch B
+    follows directly.  What is left has a single, final jump and flattens into the original sequence."""
+    ep = list(blk.epilogue) + ([following] if following is not None and len(blk.epilogue) == 1 else [])
+    if len(ep) < 2 or not (isinstance(ep[0], ast.Assign) and len(ep[0].targets) == 1 and isinstance(ep[0].targets[0], ast.Name)
+                           and isinstance(ep[0].value, ast.Name) and ep[0].value.id == blk.ret):
+        return
+    x = ep[0].targets[0].id
+    iff = ep[1]
+    if not (isinstance(iff, ast.If) and not iff.orelse and isinstance(iff.test, ast.Compare) and len(iff.test.ops) == 1 and _ends_flow(iff.body)
+            and isinstance(iff.test.left, ast.Name) and iff.test.left.id == x
+            and (isinstance(iff.test.comparators[0], ast.Constant) or _stable_path(iff.test.comparators[0]))):
+        return
+    if any(isinstance(n, ast.Name) and n.id == blk.ret for s_ in ep[1:] for n in ast.walk(s_)):
+        return
+
+    def same_test(t, v):
+        return isinstance(t, ast.Compare) and len(t.ops) == 1 and type(t.ops[0]) is type(iff.test.ops[0]) and isinstance(t.left, ast.Name) and t.left.id == v \
+            and ast.dump(t.comparators[0]) == ast.dump(iff.test.comparators[0])
+
+    def go(stmts):
+        for s_ in stmts:
+            if isinstance(s_, InlineBlock):
+                continue
+            if isinstance(s_, ast.If) and not s_.orelse and len(s_.body) == 2 and isinstance(s_.body[1], InlineJump) and getattr(s_.body[1], "ret", None) == blk.ret \
+                    and isinstance(s_.body[0], ast.Assign) and len(s_.body[0].targets) == 1 and isinstance(s_.body[0].targets[0], ast.Name) \
+                    and s_.body[0].targets[0].id == blk.ret and isinstance(s_.body[0].value, ast.Name) and same_test(s_.test, s_.body[0].value.id):
+                a_ = ast.copy_location(ast.Assign(targets=[ast.Name(id=x, ctx=ast.Store())], value=s_.body[0].value, type_comment=None), s_.body[0])
+                ast.fix_missing_locations(a_)
+                s_.body = [a_] + copy.deepcopy(iff.body)
+                continue
+            for f in ("body", "orelse", "finalbody"):
+                if isinstance(getattr(s_, f, None), list) and not isinstance(s_, (ast.FunctionDef, ast.AsyncFunctionDef, ast.ClassDef)):
+                    go(getattr(s_, f))
+            for h in getattr(s_, "handlers", []) or []:
+                go(h.body)
+    go(blk.body)
+
+
 def _truncate_dead(stmts):
     """statements after one that always leaves (return / raise / break / continue / jump) are dropped, recursively"""
     out = []
@@ -740,12 +786,13 @@ def _flatten_blocks(stmts):
     """An inlined helper whose only return is its last statement is a plain statement sequence: prologue; body; epilogue, and when the
     statement that received the result is `x = <result>` / `return <result>` the returned expression takes the place of the temporary."""
     out = []
-    for st in stmts:
+    for i_st, st in enumerate(stmts):
         if isinstance(st, InlineBlock):
             st.prologue = _flatten_blocks(st.prologue)
             st.body = _flatten_blocks(st.body)
             st.epilogue = _flatten_blocks(st.epilogue)
             _thread_boolean_result(st)
+            _thread_guarded_result(st, stmts[i_st + 1] if i_st + 1 < len(stmts) else None)
             # `if C: <leaves> else: B` at the end of the helper body is `if C: <leaves>` followed by B (the form before return sinking),
             # which brings a final `<ret> = E; jump` back to the tail
             while st.body and isinstance(st.body[-1], ast.If) and st.body[-1].orelse and _ends_flow(st.body[-1].body) \
@@ -1264,6 +1311,60 @@ def _scalar_dicts(fdef, log=None):
             if log is not None:
                 log.append((D, sorted(names.values()), getattr(st, "lineno", 0)))
             return _scalar_dicts(fdef, log)
+
+
+def _kwargs_dicts(fdef, log=None):
+    """N43: `D = {"a": E1, "b": E2}` ... `f(x, **D)`, D bound once and used only as `**D`  ->  `D__a = E1; D__b = E2` ... `f(x, a=D__a, b=D__b)`
+    (the values are still evaluated where the display stood, in its order)."""
+    params = {a.arg for a in ast.walk(fdef.args) if isinstance(a, ast.arg)}
+
+    def blocks(ss):
+        yield ss
+        for st in ss:
+            if isinstance(st, (ast.FunctionDef, ast.AsyncFunctionDef, ast.ClassDef)):
+                continue
+            for owner, f in ([(st, "prologue"), (st, "body"), (st, "epilogue")] if isinstance(st, InlineBlock) else _child_lists(st)):
+                yield from blocks(getattr(owner, f))
+    for blk in list(blocks(fdef.body)):
+        for i, st in enumerate(blk):
+            if not (isinstance(st, ast.Assign) and len(st.targets) == 1 and isinstance(st.targets[0], ast.Name) and isinstance(st.value, ast.Dict) and st.value.keys
+                    and all(isinstance(k, ast.Constant) and isinstance(k.value, str) and k.value.isidentifier() for k in st.value.keys)
+                    and len({k.value for k in st.value.keys}) == len(st.value.keys)):
+                continue
+            D = st.targets[0].id
+            if D in params:
+                continue
+            occ = [n for n in ast.walk(fdef) if isinstance(n, ast.Name) and n.id == D and n is not st.targets[0]]
+            stars = {id(k.value): c for c in ast.walk(fdef) if isinstance(c, ast.Call) for k in c.keywords if k.arg is None and isinstance(k.value, ast.Name) and k.value.id == D}
+            if not occ or any(id(n) not in stars for n in occ):
+                continue
+            if any(isinstance(n, (ast.FunctionDef, ast.AsyncFunctionDef, ast.Lambda)) and n is not fdef and any(isinstance(x, ast.Name) and x.id == D for x in ast.walk(n))
+                   for n in ast.walk(fdef)):
+                continue
+            calls = list({id(c): c for c in stars.values()}.values())
+            if any(sum(1 for k in c.keywords if k.arg is None) != 1 or {k.arg for k in c.keywords} & {k.value for k in st.value.keys} for c in calls):
+                continue
+            new = []
+            for k, v in zip(st.value.keys, st.value.values):
+                a_ = ast.copy_location(ast.Assign(targets=[ast.Name(id=f"{D}__{k.value}", ctx=ast.Store())], value=v, type_comment=None), st)
+                ast.fix_missing_locations(a_)
+                new.append(a_)
+            blk[i:i + 1] = new
+            for c in calls:
+                kws = []
+                for k in c.keywords:
+                    if k.arg is None:
+                        for kk in st.value.keys:
+                            kw = ast.keyword(arg=kk.value, value=ast.Name(id=f"{D}__{kk.value}", ctx=ast.Load()))
+                            ast.copy_location(kw.value, c)
+                            kws.append(kw)
+                    else:
+                        kws.append(k)
+                c.keywords = kws
+                ast.fix_missing_locations(c)
+            if log is not None:
+                log.append((D, len(calls), getattr(st, "lineno", 0)))
+            return _kwargs_dicts(fdef, log)
 
 
 def _eliminate_aliases(fdef, log=None, member_ok=None):
@@ -1811,6 +1912,10 @@ class Normalizer:
         fdef.body = _sink_returns(fdef.body)       # again: a display completed above may now be returned through a temporary
         fdef.body = _drop_dead_defs(fdef, _flatten_blocks(self._stmts(fdef.body, modname, cname, stack, state)))
         _resplit_assigns(fdef.body)
+        kd_ = []
+        _kwargs_dicts(fdef, kd_)
+        for d_, n_, ln_ in kd_:
+            self.lowered.append((stack[0], ln_, f"kwargs dict {d_} ({n_} calls)"))
         sd_ = []
         _scalar_dicts(fdef, sd_)
         for d_, ns_, ln_ in sd_:
@@ -2194,6 +2299,16 @@ class Normalizer:
         aliased = set()
         for nm in sorted(hl):
             identity = nm in binding and isinstance(binding[nm], ast.Name) and binding[nm].id == nm and nm not in assigned
+            if not identity and nm in binding and isinstance(binding[nm], ast.Name) and binding[nm].id == nm and state.get("root") is not None:
+                # the helper re-binds a parameter that is bound to the caller's variable of the same name, and the caller never looks at that variable
+                # again (its only reads are this call's arguments, outside any loop): the helper may as well work on the caller's variable
+                root_ = state["root"]
+                in_call = {id(x) for x in ast.walk(call)}
+                loads_ = [x for x in ast.walk(root_) if isinstance(x, ast.Name) and x.id == nm and isinstance(x.ctx, ast.Load)]
+                if loads_ and all(id(x) in in_call for x in loads_) and not any(isinstance(x, (ast.For, ast.While, ast.AsyncFor, ast.Lambda, ast.ListComp, ast.GeneratorExp,
+                                                                                                 ast.DictComp, ast.SetComp)) for x in ast.walk(root_)) \
+                        and sum(1 for x in ast.walk(call) if isinstance(x, ast.Name) and x.id == nm) == 1:
+                    identity = True
             if identity:
                 continue
             # a parameter bound to a plain local of the caller that neither side re-binds is that local under another name
